@@ -413,7 +413,9 @@ class Program:
         if r < 0.19 and self.world.get("continue_after_rejection"):
             # a call the library refuses (caught by the script, which carries on)
             q = rng.random()
-            if q < 0.4:
+            if q < 0.2:
+                return g.gen_invalid(sess, ["nan", "negative", "comps_len", "lenmismatch"])
+            if q < 0.5:
                 return g.gen_transfer(sess, rng.choice(["reject.underflow", "reject.overflow"]))
             kind = rng.choice(["aspirate", "dispense"])
             return g.gen_addremove(sess, kind, intent="reject.underflow" if kind == "aspirate" else "reject.overflow")
